@@ -11,6 +11,7 @@ package c10
 import (
 	"context"
 	"fmt"
+	"math"
 	"os"
 	"sort"
 	"strings"
@@ -764,7 +765,7 @@ func parse(base int, spec string) []call {
 		var g float64
 		fmt.Sscanf(f[1:], "%g", &g)
 		whole := int(g)
-		out = append(out, call{gap: whole, extra: time.Duration((g - float64(whole)) * float64(ms)), key: f[:1], val: base + i})
+		out = append(out, call{gap: whole, extra: time.Duration(math.Round((g-float64(whole))*1000)) * time.Microsecond, key: f[:1], val: base + i})
 	}
 	return out
 }
